@@ -273,11 +273,78 @@ class Runner:
         self.req("DELETE", otarget)
 
 
+def run_slow_uploads(args, res):
+    """a conditional PUT whose body arrives slowly (real CLI server) while another PUT of the same name completes:
+    the condition holds when the request starts and no longer when the body is complete.  Whatever order the
+    server gives the two requests, the answers and the final content must be those of one of the two orders -
+    in both of them the resource ends with the other request's content."""
+    from vf import fe as FE
+    rng = random.Random(args["seed"])
+    base = common.mkscratch("c03s")
+    w = W.World(base, fe_kind="aio", prefix=args.get("prefix", "/"), seed=args["seed"])
+    w.res = res
+    try:
+        w.start()
+        w.stop()
+        w.provision_bare("/user/calendars/barecal/", "calendar", meta="gitconfig")
+        w.start()
+        w.mkcol("/user/calendars/cal0/", "calendar")
+        for rnd in range(args["rounds"]):
+            for colpath, backend in (("/user/calendars/cal0/", "tree"), ("/user/calendars/barecal/", "bare")):
+                for cond in ("if-none-match-star-on-absent", "if-match-current-on-present"):
+                    name = "slow-%d-%s.ics" % (rnd, cond[:8])
+                    uid = "slow-%d-%s-%s" % (rnd, cond[:8], backend)
+                    target = w.url(colpath, name)
+                    big = rng.random() < 0.5
+                    ta, tb = w.new_token(), w.new_token()
+                    body_a = gen.ical(rng, uid, ta, rich=False, big=70000 if big else 0)
+                    body_b = gen.ical(rng, uid, tb, rich=False)
+                    hs = [("Content-Type", "text/calendar")]
+                    if cond == "if-none-match-star-on-absent":
+                        hs.append(("If-None-Match", "*"))
+                    else:
+                        r0 = FE.raw_http(w.fe.addr, "PUT", target, [("Content-Type", "text/calendar")], gen.ical(rng, uid, w.new_token(), rich=False))
+                        et = r0.header("ETag")
+                        if r0.status not in (201, 204) or not et:
+                            continue
+                        hs.append(("If-Match", et))
+
+                    def other():
+                        return FE.raw_http(w.fe.addr, "PUT", target, [("Content-Type", "text/calendar")], body_b)
+                    ra, rb = FE.raw_http_slow(w.fe.addr, "PUT", target, hs, body_a, other)
+                    sa = X.effective_status("PUT", ra)[0]
+                    sb = X.effective_status("PUT", rb)[0] if rb is not None else 0
+                    rg = FE.raw_http(w.fe.addr, "GET", target, [], None)
+                    final = "A" if ta.encode() in rg.body else ("B" if tb.encode() in rg.body else "other")
+                    res.evaluations += 1
+                    res.count("slow_upload_cases")
+                    res.count("slow_upload_outcome:%s/%s/%s" % (sa, sb, final))
+                    res.seen("slow-upload", backend, cond, sa, sb, final, big)
+                    okA, okB = sa in (200, 201, 204), sb in (200, 201, 204)
+                    # sequential orders: A then B -> A ok, B ok, final B;  B then A -> B ok, A refused (412), final B
+                    legal = okB and final == "B" and (okA or sa == 412)
+                    if not okB and sb not in (0,):
+                        # B itself refused (e.g. locked): then A alone decides; final A iff A ok
+                        legal = (okA and final == "A") or (not okA and final != "A")
+                    if not legal:
+                        res.violation(f"aio/{backend}/slow-conditional-upload/{cond}/answers-{sa}+{sb}-final-{final}",
+                                      f"PUT {target} ({cond}) whose body arrived while another PUT of the same name completed: the conditional PUT answered {sa}, the other {sb}, "
+                                      f"and the resource finally holds the content of {final}: no order of the two requests gives that", {"config": dict(args)})
+    except Exception:
+        res.inconclusive.append("harness exception: " + traceback.format_exc()[-1500:])
+    finally:
+        w.stop()
+        common.rmtree(base)
+    return res
+
+
 def run_shard(args):
     res = common.Result()
     if args.get("mode") == "store":
         from vf import storedrv
         return storedrv.run(args, res, PROP)
+    if args.get("mode") == "slow":
+        return run_slow_uploads(args, res)
     rng = random.Random(args["seed"])
     base = common.mkscratch("c03")
     w = W.World(base, fe_kind=args["fe"], prefix=args.get("prefix", "/"), seed=args["seed"])
@@ -333,11 +400,14 @@ def check(tier, seed, t0):
                     shards.append({"fe": fe, "backend": backend, "prefix": "/dav/" if k else "/", "seed": seed * 100 + len(shards), "slice": [lo, hi, 1], "variant": True})
     for i, b in enumerate(["vdir", "bare-mem", "bare-disk", "tree"]):
         shards.append({"mode": "store", "backend": b, "seed": seed * 100 + 70 + i, "steps": 200 if tier == "quick" else 1500, "histories": 2 if tier == "quick" else 6})
+    for i in range(2 if tier == "quick" else 6):
+        shards.append({"mode": "slow", "prefix": ["/", "/dav/"][i % 2], "seed": seed * 100 + 90 + i, "rounds": 6 if tier == "quick" else 25})
     results, failures = common.run_shards("vf.props.c03", shards, timeout_s=300 if tier == "quick" else 2400)
     merged = common.merge(results)
     c = merged["counters"]
     guards = [("cases", c.get("cases", 0), int(n * 2.5)), ("cases expected executed", c.get("expected_executed", 0), 100), ("cases expected refused", c.get("expected_refused", 0), 100),
-              ("cases expected 304", c.get("expected_304", 0), 20), ("cases expected 200", c.get("expected_200", 0), 20), ("store-API steps", c.get("store_steps", 0), 1000)]
+              ("cases expected 304", c.get("expected_304", 0), 20), ("cases expected 200", c.get("expected_200", 0), 20), ("store-API steps", c.get("store_steps", 0), 1000),
+              ("conditional PUTs whose body arrived while another PUT completed", c.get("slow_upload_cases", 0), 40)]
     return common.finish(PROP, tier, seed, "exploration", merged, failures, RULE + f"; the cross product has {n} cases per (front end, backend)", t0, guards=guards,
                          assumptions=["RFC 7232: If-Match strong comparison, '*' = exists; unquoted values are not entity-tags (outcome not judged, effect judged)",
                                       "weak tags in If-None-Match and repeated header lines are outside the statement and not generated"],
